@@ -17,7 +17,7 @@ B_THOROUGH = B_QUICK + ['x64-soft', 'x64-alt1', 'x64-alt2', 'x64-aesni-all', 'a6
                         'x86-soft-all', 'x86-alt1-all']
 
 REGISTRY = {
-    'C17': dict(module='c17', level='other', technique='dispatch-shape rule over resolved MIR; per-lane term equality / key-lane dependence by global value numbering',
+    'C17': dict(module='c17', level='other', technique='dispatch-shape rule over resolved MIR; per-lane term equality / key-lane dependence by global value numbering; mix-column inverse and round-consistency identities for the bitsliced implementation in bit-level canonical form',
                 quick=['x64-all', 'x64-soft-all', 'x64-soft-aesni-all'], thorough=['x64-all', 'x64-soft-all', 'x64-soft-aesni-all', 'x64-aesni-all', 'x64-alt1-all', 'a64-all', 'a64-soft-all', 'x86-all', 'x86-alt1-all']),
     'C04': dict(module='c04', level='other', technique='override-discipline and InOut dataflow rules; per-lane term equality (global value numbering, bit-level canonical form for fixslice) of parallel and single-block routines',
                 quick=['x64', 'x64-soft', 'x64-alt1'], thorough=['x64', 'x64-soft', 'x64-alt1', 'x64-alt2', 'a64', 'a64-soft-all', 'x86', 'x86-soft-all', 'x86-alt1-all']),
